@@ -654,6 +654,8 @@ def run(ctx, host=None):
             chk.bad(R3, v.node.frame.fn.qualname, v.node.text(120), v.msg, where=v.node.where, witness=v.witness)
 
     known_set_accumulation(ctx, chk, R4)
+    from .common import single_connection_per_handle
+    single_connection_per_handle(ctx, chk, R4)
 
     # ---------------------------------------------------------------- R6
     R6 = chk.rule('C09.R6', 'import with different hash types runs every add call with no_holes and read-twice', 1)
